@@ -233,7 +233,7 @@ Rebind(R, old, new, fin) ==
 
 ----------------------------------------------------------------------------
 (* THE CATALOGUE: per shape two sets of three distinct actions of the same form *)
-AllShapes == {"scalar", "string", "cat", "dense", "densecat", "nested", "sparse", "sparsecat", "sparsecatk", "sparsenest", "sparsepart", "sparsezero", "nestedcat", "nestedmix", "sparsenestcat"}
+AllShapes == {"scalar", "string", "cat", "dense", "densecat", "nested", "sparse", "sparsecat", "sparsecatk", "sparsenest", "sparsepart", "sparsezero", "nestedcat", "nestedmix", "sparsenestcat", "sparsenull"}
 ShapeSets(sh) ==
   CASE sh = "scalar"   -> << <<Num(1), Num(2), Num(3)>>, <<Num(2), Num(5), Num(0)>> >>
     [] sh = "string"   -> << <<Str("a"), Str("b"), Str("c")>>, <<Str("c"), Str("d"), Str("a")>> >>
@@ -268,6 +268,10 @@ ShapeSets(sh) ==
     [] sh = "sparsenestcat" -> \* sparse actions: a categorical inside a nested vector under one key, a plain categorical under an ordinary key name
                            << <<Map({Ent("x", Sq(<<Cat(1), Num(1)>>)), Ent("kind", Cat(1))}), Map({Ent("x", Sq(<<Cat(2), Num(1)>>)), Ent("kind", Cat(1))}), Map({Ent("x", Sq(<<Cat(2), Num(1)>>)), Ent("kind", Cat(3))})>>,
                               <<Map({Ent("x", Sq(<<Cat(3), Num(2)>>)), Ent("kind", Cat(2))}), Map({Ent("x", Sq(<<Cat(3), Num(1)>>)), Ent("kind", Cat(2))}), Map({Ent("x", Sq(<<Cat(1), Num(1)>>)), Ent("kind", Cat(2))})>> >>
+    [] sh = "sparsenull" -> \* one action is the NULL sparse action {} (Densify makes a vector without a stored entry of it; such a vector
+                            \* can only be found among the actions as the very object it is)
+                            << <<Map({}), Map({Ent("x", Num(1))}), Map({Ent("y", Num(1))})>>,
+                               <<Map({Ent("y", Num(2))}), Map({}), Map({Ent("x", Num(2)), Ent("y", Num(1))})>> >>
     [] sh = "sparsenest" -> << <<Map({Ent("x", NSq(<<1, 2>>)), Ent("y", Num(1))}), Map({Ent("x", NSq(<<0, 2>>))}), Map({Ent("x", NSq(<<2, 2>>)), Ent("y", Num(2))})>>,
                                <<Map({Ent("x", NSq(<<3, 0>>))}), Map({Ent("x", NSq(<<1, 1>>)), Ent("y", Num(1))}), Map({Ent("x", NSq(<<1, 1>>))})>> >>
 
